@@ -141,10 +141,11 @@ def _c29(ctx):
         "after a new session, so that no delta can be tried)",
         "for rows with RRDP disabled or a CA without rpkiNotify the local copy is prepared all the same and must not matter",
     ]
-    rule = ("all 264 rows of policy {never, stale, new} x (copy {none, current, expired} x this run's update {ok, delta fails, "
-            "notification fails, snapshot fails}: 11 pairs giving the outcomes updated / current / stale / unavailable) x RRDP on/off "
-            "x rsync on/off x rpkiNotify present/absent; oracle = the documented table (man page, --rrdp-fallback) on the outcome "
-            "the copy and the update define; every row is non-trivial")
+    rule = ("all 990 histories of two runs: policy {never, stale, new} x initial copy {none, current, expired} x per run the "
+            "update {ok, delta fails, notification fails, snapshot fails} (giving the outcomes updated / current / stale / "
+            "unavailable; a successful update leaves a current copy, a failed one must leave the copy as it was) x RRDP on/off "
+            "x rsync on/off x rpkiNotify present/absent; oracle per run = the documented table (man page, --rrdp-fallback) on the "
+            "outcome the copy and the update define; every run is non-trivial")
     return lib.finish(ctx, r, rule, exhaustive=True)
 
 
@@ -170,10 +171,10 @@ CHECKS = {
             "level_text": "Limit disabled / 3000 / default x sizes just below, at, above each limit and huge x https trust anchor, "
                           "snapshot object, delta object; plus whole validation runs over an https TAL."},
     "C29": {"run": _c29, "engine": "Fallback",
-            "technique": "TLA+ transcription of Run::repository against the documented table (Fallback.tla) checked by TLC; all 264 rows "
+            "technique": "TLA+ transcription of Run::repository against the documented table (Fallback.tla) checked by TLC; all 990 two-run histories "
                          "replayed with really produced RRDP outcomes",
             "design_ref": "4/C29",
             "level_note": "Outcomes are produced through the server double and real waiting (3.3 s once); one CA per row, one "
                           "thread; the thorough tier repeats every row with two CAs of the same repository looked up by two threads.",
-            "level_text": "The full product policy x (copy x update result: 11 pairs covering the four outcomes) x RRDP on/off x rsync on/off x rpkiNotify yes/no (264 rows)."},
+            "level_text": "The full product policy x initial copy x update result per run (two runs sharing the copy) x RRDP on/off x rsync on/off x rpkiNotify yes/no (990 histories)."},
 }
